@@ -1,26 +1,45 @@
-(** C19 — EVM log and transaction indices are unique and gap-free within a block.
+(** C19 — EVM log and transaction indices are unique and gap-free within a block; the block bloom
+    published at end of block is the union of the blooms of all logs of the block.
     This file holds only the exported statements. *)
+From Coq Require Import String.
 From Coq Require Import List Bool Arith.
 Import ListNotations.
 Require Import Nib.C19.Sites Nib.C19.Model Nib.C19.Spec Nib.C19.Proofs.
 
-(** For every block composition (any ops, any multiplicity, any order): tx indices of executed
-    Ethereum txs are 0,1,2,…; log indices of all logs are 0,1,2,… in emission order; logs of an
-    Ethereum tx carry its tx index — provided every updateBlockBloom call site passes the current
-    block log size (the generated facts, re-extracted from /repo on every run). *)
+(** A block = messages executed in BeginBlock, delivered txs, and the module EndBlockers in the order [O] of
+    app/app_config.go (message-executing EndBlockers run the proposals that came due; x/evm publishes the bloom).
+    For every block (any ops, any multiplicity, any order, any proposals) and ANY EndBlocker order: tx indices of
+    executed Ethereum txs are 0,1,2,…; log indices of all logs of the block — DeliverTx and EndBlock-executed
+    messages alike — are 0,1,2,… in emission order; logs of an Ethereum tx carry its tx index — provided every
+    updateBlockBloom call site passes the current block log size (generated facts [W]). *)
 Theorem C19_indices_consecutive :
-  forall (W : sites) (ops : list op), sites_ok W = true -> P (snd (run_block W ops)).
-Proof. intros W ops H. exact (block_indices_consecutive W ops H). Qed.
+  forall (W : sites) (O : wiring) (b : block), sites_ok W = true -> P (r_emits (run_full W O b)).
+Proof. intros W O b H. exact (full_indices_consecutive W O b H). Qed.
 Print Assumptions C19_indices_consecutive.
 
-(** The published block bloom folds in exactly the logs emitted in the block, and BlockLogSize
-    equals their number. *)
+(** Exactly one bloom is published and it folds in exactly the logs emitted in the block, and BlockLogSize equals
+    their number — under the ORDER FACT [wiring_ok]: x/evm's EndBlocker runs once and only inert EndBlockers follow it. *)
 Theorem C19_bloom_is_union :
-  forall (W : sites) (ops : list op), sites_ok W = true ->
-  bloom (fst (run_block W ops)) = all_logs (snd (run_block W ops)) /\
-  log_size (fst (run_block W ops)) = length (all_logs (snd (run_block W ops))).
-Proof. intros W ops H. exact (block_bloom_is_union W ops H). Qed.
+  forall (W : sites) (O : wiring) (b : block), sites_ok W = true -> wiring_ok O = true ->
+  Pbloom (r_emits (run_full W O b)) (r_pubs (run_full W O b)) /\
+  log_size (r_final (run_full W O b)) = length (all_logs (r_emits (run_full W O b))).
+Proof. intros W O b H1 H2. exact (full_bloom_is_union W O b H1 H2). Qed.
 Print Assumptions C19_bloom_is_union.
+
+(** The order fact is exactly what is needed: the bloom is the union for all blocks IFF the order fact holds. *)
+Theorem C19_bloom_union_iff_order :
+  forall (W : sites) (O : wiring),
+  (forall b, Pbloom (r_emits (run_full W O b)) (r_pubs (run_full W O b))) <-> order_ok (end_order O) = true.
+Proof. exact bloom_union_iff_order. Qed.
+Print Assumptions C19_bloom_union_iff_order.
+
+(** Variant flag "x/evm's EndBlocker before x/gov's" (evm.ModuleName moved up in orderedModuleNames): refuted by a
+    block with one Ethereum tx and one passed proposal carrying a MsgCreateFunToken. *)
+Theorem C19_evm_before_gov_refuted :
+  sites_ok good_sites = true /\
+  exists b, ~ Pbloom (r_emits (run_full good_sites evm_before_gov b)) (r_pubs (run_full good_sites evm_before_gov b)).
+Proof. exact evm_before_gov_refuted. Qed.
+Print Assumptions C19_evm_before_gov_refuted.
 
 (** Reverted and failing transactions contribute no logs, no bloom bits, no log indices. *)
 Theorem C19_reverted_contribute_nothing :
@@ -30,17 +49,27 @@ Theorem C19_reverted_contribute_nothing :
 Proof. intros W s o H. exact (no_logs_unless_ok W s o H). Qed.
 Print Assumptions C19_reverted_contribute_nothing.
 
-(** Over consecutive blocks. *)
+(** A proposal one of whose messages fails is rolled back as a whole: no logs, state unchanged. *)
+Theorem C19_failed_proposal_contributes_nothing :
+  forall (W : sites) (s : st) (p : proposal), forallb msg_ok p = false -> run_prop W s p = (s, nothing).
+Proof. exact failed_proposal_contributes_nothing. Qed.
+Print Assumptions C19_failed_proposal_contributes_nothing.
+
+(** Over consecutive blocks (the transient state restarts at [init] in every block). *)
 Theorem C19_every_block_of_a_history :
-  forall (W : sites) (blocks : list (list op)), sites_ok W = true ->
-  Forall (fun ops => P (snd (run_block W ops))) blocks.
-Proof. intros W blocks H. exact (history_indices_consecutive W blocks H). Qed.
+  forall (W : sites) (O : wiring) (blocks : list block), sites_ok W = true -> wiring_ok O = true ->
+  Forall (fun b => P (r_emits (run_full W O b)) /\ Pbloom (r_emits (run_full W O b)) (r_pubs (run_full W O b))) blocks.
+Proof. intros W O blocks H1 H2. exact (history_full W O blocks H1 H2). Qed.
 Print Assumptions C19_every_block_of_a_history.
 
-(** The boolean checker evaluated on implementation traces is sound for [P]. *)
+(** The boolean checkers evaluated on implementation traces are sound. *)
 Theorem C19_checker_sound : forall es, Pb es = true -> P es.
 Proof. exact Pb_sound. Qed.
 Print Assumptions C19_checker_sound.
+
+Theorem C19_block_checker_sound : forall es pubs ok, Pobs_b es pubs ok = true -> Pobs es pubs ok.
+Proof. exact Pobs_b_sound. Qed.
+Print Assumptions C19_block_checker_sound.
 
 (** The call-site bases of the pinned tree (before the fix: commit) violate the property. *)
 Theorem C19_pinned_tree_refuted : exists ops, Pb (snd (run_block pinned_sites ops)) = false.
